@@ -1,6 +1,7 @@
 // ops_quat.cpp — quaternion algebra, casts, matrix constructors and shape conversions, transforms.
 #include "opdef.hpp"
 
+static inline void launder_q(void* q) { __asm__ volatile("" : : "r"(q) : "memory"); }
 template <class T, glm::qualifier Q> static void reg_quat() {
 	typedef glm::qua<T, Q> Qt; const char tl = (char)SA<T>::L;
 	auto name = [&](const char* b) { return nm<T, Q>(b, "quat"); };
@@ -14,6 +15,10 @@ template <class T, glm::qualifier Q> static void reg_quat() {
 	add_op(name("dot"), q2, o1, 'U', 'U', 8, FN { ST1(out, glm::dot(LDQ<T, Q>(in), LDQ<T, Q>(in + 4))); }, SC { return 4 * amax<T>(in, 0, 4) * amax<T>(in, 4, 4); });
 	add_op(name("length"), q1, o1, 'U', 'R', 8, FN { ST1(out, glm::length(LDQ<T, Q>(in))); }, SC { return 2 * amax<T>(in, 0, 4); });
 	add_op(name("normalize"), spec("@V4", tl), o4, 'U', 'R', 8, FN { STQ(out, glm::normalize(LDQ<T, Q>(in))); }, SC { return 1.0L; });
+	// copy construction, copy assignment and cross-qualifier / cross-type conversion (hand-written when defaulted functions are off)
+	add_op(name("copy_ctor_assign"), q1, o4, 'B', 'B', 0, FN { Qt a = LDQ<T, Q>(in); launder_q(&a); Qt b(a); launder_q(&b); Qt c2(T(1), T(2), T(3), T(4)); c2 = b; launder_q(&c2); STQ(out, c2); });
+	add_op(name("convert_qualifier"), q1, o4, 'B', 'B', 0, FN { Qt a = LDQ<T, Q>(in); launder_q(&a); glm::qua<T, glm::packed_mediump> m(a); launder_q(&m); Qt b(m); STQ(out, b); });
+	add_op(name("convert_elemtype"), q1, o4, 'V', 'V', 0, FN { Qt a = LDQ<T, Q>(in); launder_q(&a); glm::qua<double, Q> d(a); launder_q(&d); glm::qua<float, Q> f(d); launder_q(&f); Qt b(f); STQ(out, b); });
 	add_op(name("conjugate"), q1, o4, 'B', 'B', 0, FN { STQ(out, glm::conjugate(LDQ<T, Q>(in))); });
 	add_op(name("inverse"), spec("@V4", tl), o4, 'U', 'R', 16, FN { STQ(out, glm::inverse(LDQ<T, Q>(in))); }, nullptr);
 	add_op(name("op_eq"), spec("@E4 @E4", tl), "b1", 'B', 'B', 0, FN { ST1(out, LDQ<T, Q>(in) == LDQ<T, Q>(in + 4)); });
@@ -96,6 +101,25 @@ template <glm::qualifier Q> static void reg_pack() {
 	add_op(name("prevFloat"), "fX1", "f1", 'B', 'B', 0, FN { ST1(out, glm::prevFloat(in[0].f)); });
 	add_op(name("nextDouble"), "dX1", "d1", 'B', 'B', 0, FN { ST1(out, glm::nextFloat(in[0].d)); });
 	add_op(name("floatDistance"), "fP1 fP1", "i1", 'B', 'B', 0, FN { ST1(out, (int)glm::floatDistance(in[0].f, in[1].f)); });
+	// the other spellings and overloads of ext/scalar_ulp, ext/vector_ulp and gtc/ulp (each has its own pre-C++11 fallback branch)
+	add_op(name("prevDouble"), "dX1", "d1", 'B', 'B', 0, FN { ST1(out, glm::prevFloat(in[0].d)); });
+	add_op(name("nextFloat_n"), "fX1 iW1", "f1", 'B', 'B', 0, FN { ST1(out, glm::nextFloat(in[0].f, in[1].i)); });
+	add_op(name("prevFloat_n"), "fX1 iW1", "f1", 'B', 'B', 0, FN { ST1(out, glm::prevFloat(in[0].f, in[1].i)); });
+	add_op(name("nextDouble_n"), "dX1 iW1", "d1", 'B', 'B', 0, FN { ST1(out, glm::nextFloat(in[0].d, in[1].i)); });
+	add_op(name("prevDouble_n"), "dX1 iW1", "d1", 'B', 'B', 0, FN { ST1(out, glm::prevFloat(in[0].d, in[1].i)); });
+	add_op(name("next_float"), "fX1", "f1", 'B', 'B', 0, FN { ST1(out, glm::next_float(in[0].f)); });
+	add_op(name("prev_float"), "fX1", "f1", 'B', 'B', 0, FN { ST1(out, glm::prev_float(in[0].f)); });
+	add_op(name("next_double"), "dX1", "d1", 'B', 'B', 0, FN { ST1(out, glm::next_float(in[0].d)); });
+	add_op(name("prev_double"), "dX1", "d1", 'B', 'B', 0, FN { ST1(out, glm::prev_float(in[0].d)); });
+	add_op(name("nextFloat_vec4"), "fX4", "f4", 'B', 'B', 0, FN { ST(out, glm::nextFloat(VL<4, float, Q>::ld(in))); });
+	add_op(name("prevFloat_vec4"), "fX4", "f4", 'B', 'B', 0, FN { ST(out, glm::prevFloat(VL<4, float, Q>::ld(in))); });
+	add_op(name("prevFloat_vec3_n"), "fX3 iW3", "f3", 'B', 'B', 0, FN { ST(out, glm::prevFloat(VL<3, float, Q>::ld(in), glm::vec<3, int, Q>(in[3].i, in[4].i, in[5].i))); });
+	add_op(name("nextDouble_vec2_n"), "dX2 iW1", "d2", 'B', 'B', 0, FN { ST(out, glm::nextFloat(VL<2, double, Q>::ld(in), in[2].i)); });
+	add_op(name("prevDouble_vec4"), "dX4", "d4", 'B', 'B', 0, FN { ST(out, glm::prevFloat(VL<4, double, Q>::ld(in))); });
+	add_op(name("floatDistance_double"), "dP1 dP1", "u2", 'B', 'B', 0, FN { glm::uint64 d = (glm::uint64)glm::floatDistance(in[0].d, in[1].d); out[0].u = (unsigned)d; out[1].u = (unsigned)(d >> 32); });
+	add_op(name("float_distance"), "fP1 fP1", "i1", 'B', 'B', 0, FN { ST1(out, (int)glm::float_distance(in[0].f, in[1].f)); });
+	add_op(name("float_distance_double"), "dP1 dP1", "u2", 'B', 'B', 0, FN { glm::uint64 d = (glm::uint64)glm::float_distance(in[0].d, in[1].d); out[0].u = (unsigned)d; out[1].u = (unsigned)(d >> 32); });
+	add_op(name("floatDistance_vec4"), "fP4 fP4", "i4", 'B', 'B', 0, FN { ST(out, glm::floatDistance(VL<4, float, Q>::ld(in), VL<4, float, Q>::ld(in + 4))); });
 	add_op(name("convertLinearToSRGB"), "fZ4", "f4", 'V', 'V', 0, FN { ST(out, glm::convertLinearToSRGB(VL<4, float, Q>::ld(in))); });
 	add_op(name("convertSRGBToLinear"), "fZ4", "f4", 'V', 'V', 0, FN { ST(out, glm::convertSRGBToLinear(VL<4, float, Q>::ld(in))); });
 }
